@@ -3,7 +3,7 @@ UNIT = dict(
     prelude=["rand_stub.rs", "std_vec.rs"],
     assumptions=[
         "rand_distr::WeightedAliasIndex::new succeeds on a non-empty weight vector and remembers exactly those weights; sample() returns an index below the number of weights, drawn proportionally to them (TRUSTED, statistical correctness not decided)",
-        "WeightedAliasIndex::new's documented failure cases (negative / all-zero weights) are excluded by from_root's normalisation (assumed, C11 n/a)",
+        "WeightedAliasIndex::new's documented failure cases (negative / all-zero weights) are excluded by from_root's normalisation (assumed; C11 decides from_root per node only)",
     ],
     items=[
         dict(file="src/solve/data.rs", path="struct SampledChance", pub_fields=True),
